@@ -66,10 +66,9 @@ Definition TMIN : Z := 0.
 Definition ts_mk (mx b e : Z) : Z * Z := if b <? e then (b, e) else (mx, TMIN).   (* __init__ canonicalisation *)
 Definition ts_wf (mx : Z) (t : Z * Z) : Prop := (TMIN <= fst t < snd t /\ snd t <= mx) \/ t = (mx, TMIN).
 Definition enc_ts (t : Z * Z) : jv := JArr [JInt (fst t); JInt (snd t)].           (* _serialize: self.nsec *)
-Definition dec_ts (mx : Z) (j : jv) : option (Z * Z) :=                            (* _validate: {"nsec": value} | dict *)
+Definition dec_ts (mx : Z) (j : jv) : option (Z * Z) :=                            (* _validate: {"nsec": value} *)
   match j with
   | JArr [JInt b; JInt e] => Some (ts_mk mx b e)
-  | JObj o => match jget "nsec" o with Some (JArr [JInt b; JInt e]) => Some (ts_mk mx b e) | _ => None end
   | _ => None
   end.
 (* YAML: scalar EMPTY, or mapping begin/end with None for the unbounded ends (time conversion: C11) *)
